@@ -308,6 +308,49 @@ def lazy_harvester_stream(c, tmp, n):
         shutil.rmtree(d, ignore_errors=True)
 
 
+def lazy_snapshot_stream(c, tmp, n):
+    """A dataset loaded lazily (chunks=...) is a snapshot of the file as it was: when somebody replaces the file
+    afterwards (a harvester saves by writing next to it and renaming), evaluating the dataset still gives the values
+    it was loaded with -- the same as loading into memory at that moment."""
+    import xarray as xr
+    import xyzpy
+    for i in range(n):
+        rng = c.rng
+        d = os.path.join(tmp, f"ls{i}")
+        os.makedirs(d)
+        path = os.path.join(d, rng.choice(["snap", "snap.h5"]))
+        a = sorted(rng.sample(range(10), rng.randint(2, 3)))
+        ds = xr.Dataset({"v": (("a", "b"), np.array([[10.0 * x + y for y in range(3)] for x in a]))},
+                        coords={"a": a, "b": [0, 1, 2]})
+        xyzpy.save_ds(ds, path)
+        chunks = rng.choice([1, {"a": 1}, {"a": 1, "b": 2}])
+        rep = {"stream": "lazy-snapshot", "chunks": repr(chunks), "a": a}
+        bad = None
+        lazy = None
+        try:
+            lazy = xyzpy.load_ds(path, chunks=chunks)
+            eager = xyzpy.load_ds(path)
+            # another session harvests other values for the same points and one more
+            h = xyzpy.Harvester(None, data_name=path)
+            more = xr.Dataset({"v": (("a", "b"), np.array([[500.0 + 10 * x + y for y in range(3)] for x in a + [11]]))},
+                              coords={"a": a + [11], "b": [0, 1, 2]})
+            h.add_ds(more, overwrite=True)
+            got = lazy["v"].values
+            if got.shape != eager["v"].values.shape or not np.array_equal(got, eager["v"].values):
+                bad = (f"loaded lazily before the file was replaced, evaluated afterwards: {got.tolist()}; loaded into "
+                       f"memory at the same moment: {eager['v'].values.tolist()}")
+        except Exception as e:  # noqa
+            bad = f"{type(e).__name__}: {str(e)[:160]}"
+        finally:
+            if lazy is not None:
+                lazy.close()
+        c.case(json.dumps(rep, sort_keys=True), nontrivial=True, sample=rep if i % 5 == 0 else None)
+        c.count("stream", "lazy-snapshot")
+        if bad:
+            c.violation("lazy-load-differs", bad, rep)
+        shutil.rmtree(d, ignore_errors=True)
+
+
 def derived_stream(c, tmp, n, pairs, metas):
     """A dataset DERIVED from a loaded one (extended along a coordinate, so that cells nobody filled are missing)
     is a dataset like any other: saved and loaded again it has the same values -- whatever on-disk details xarray
@@ -417,6 +460,7 @@ def run(tier, seed):
         sync_conflict_stream(c, tmp, 12 if tier == "quick" and not c.broken else 80)
         lazy_harvester_stream(c, tmp, 12 if tier == "quick" and not c.broken else 80)
         derived_stream(c, tmp, 16 if tier == "quick" and not c.broken else 120, pairs, metas)
+        lazy_snapshot_stream(c, tmp, 10 if tier == "quick" and not c.broken else 60)
         bad, _ = core.safe_run_cases(c, "Prelude Names GenNames", pairs, preamble=PREAMBLE)
         for i in bad:
             c.obligation_broken("correspondence Model/Names.v (regenerated) vs manage.py",
